@@ -96,6 +96,10 @@ type sTask struct {
 	EnumKind   int  `json:"enum_kind,omitempty"`
 	CompileErr int  `json:"compile_err,omitempty"`
 	CompileSrc bool `json:"compile_src,omitempty"`
+	// Src (rendering only): the task has `sources:` and a `status:` command that always fails, so it is never up to date but
+	// goes through the fingerprinted path of RunTask (the sources checker records, a failing command takes the record back):
+	// a failing command of such a task must stop its callers exactly like any other
+	Src bool `json:"src,omitempty"`
 	// Rendering only — the model's program does not know how a task is named:
 	// Aliases: the task has that many aliases (`aliases: [t<i>a, t<i>b]`); Wild: it is a wildcard task (`t<i>-*`)
 	// that every reference calls by a concrete name (`t<i>-x`, `t<i>-y`, `t<i>-z`).  Which name a reference
@@ -360,6 +364,9 @@ func renderSched(d schedCase) (string, string) {
 		}
 		if t.CompileErr > 0 && t.CompileSrc {
 			b.WriteString("    sources: ['Taskfile.yml']\n")
+		}
+		if t.Src && !t.UpToDate && t.CompileErr == 0 {
+			fmt.Fprintf(&b, "    sources: ['Taskfile.yml']\n    method: %s\n    status: ['exit 1']\n", []string{"checksum", "timestamp"}[i%2])
 		}
 		nameOf := func(callee, ref int, tpl bool, pos string) string {
 			if tpl {
@@ -1319,6 +1326,7 @@ func (c *Ctx) decorate(d *schedCase) {
 				t.Cmds[j].TplName = r.Intn(map[bool]int{true: 3, false: 8}[t.Cmds[j].Deferred]) == 0
 			}
 		}
+		t.Src = r.Intn(4) == 0
 		if t.EnumKind == 0 && r.Intn(3) == 0 {
 			// the checked variable is a YAML number / boolean / arrives as a number in the call
 			t.EnumKind = 1 + r.Intn(3)
